@@ -37,6 +37,26 @@ R27c  cache-escape taint: a value returned by an ``@cache``/``@lru_cache`` loade
       and no input is ever returned.
       Accepted: mutating the fresh dict *inside* the cached function before it is
       returned; calls to functions outside the tree are assumed not to mutate.
+
+Spellings that are the same fact for these rules (each has a QUIET self-test variant, and a
+breaking variant written in the same spelling where one is possible):
+  * a value read through plain locals (merge layers, ``self._x`` forwarded to the child, the
+    dict handed to ``deepcopy``, the copy / recursive merge stored into the merge result, the
+    object ``copy()`` returns): decided on reaching definitions, never on the local's name;
+  * ``nested_combine(*layers)`` where ``layers`` is one list/tuple display that nothing grows,
+    re-orders or stores into == the elements of the display as arguments;
+  * a comprehension spelled as a loop that ``append``s / ``extend``s to an initially empty
+    list (loader stacks; ``insert`` is not accepted), and the CLI options dict filled by
+    ``d[k] = v`` / ``d.update`` from an iteration over ``kwargs`` as a whole (one picked
+    option such as ``kwargs.pop("library_path")`` does not count);
+  * the walked path yielded through a local (``x = p.resolve(); yield x``) and the first
+    remaining component hoisted (``parts = ...parts; first = parts[0]; p / first``);
+  * ``a or b`` / ``x if c else y`` stored in a local before the merge == written in the call;
+  * a tuple kept whole and indexed (``t = f(); t[1]``) == unpacked, in the caller and (the
+    result tuple built in a local before ``return``) in the callee.
+  * the ``if overrides:`` test hoisted into a local (``flag = bool(overrides); if flag:``)
+    while ``overrides`` is not re-bound in between; a creating method called through a
+    bound-method local (``mk = cfg.make_child_from_path; mk(fname)``).
 """
 
 from __future__ import annotations
@@ -46,7 +66,7 @@ from typing import Dict, List, Optional, Tuple
 
 from ..cfg import cfg_of
 from ..flow import (
-    bind_args, cone, cone_calls, cone_has_param, is_method_bound, is_param_value, is_self_attr,
+    Src, bind_args, cone, cone_calls, cone_has_param, is_method_bound, is_param_value, is_self_attr,
     returns_of, single_sources, sources,
 )
 from ..index import (
@@ -124,6 +144,75 @@ def _in_loop(node: ast.AST) -> bool:
 
 def _empty_literal(e: ast.AST) -> bool:
     return (isinstance(e, ast.Dict) and not e.keys) or (isinstance(e, (ast.List, ast.Tuple)) and not e.elts)
+
+
+def _growers(cfg, f, methods: tuple, subscript_stores: bool) -> list:
+    """(node, origin ids of the container, value expression, statement) for every statement of
+    ``f`` that puts a value into a local container: ``x.<method>(v)`` and, when asked,
+    ``x[k] = v``."""
+    out = []
+    for c in calls_in(f):
+        if isinstance(c.func, ast.Attribute) and c.func.attr in methods and isinstance(c.func.value, ast.Name) and c.args and not c.keywords:
+            at_c = cfg.stmt_of(c)
+            if at_c is not None:
+                out.append((c, _origin_ids(cfg, c.func.value, at_c), c.args[-1], at_c))
+    if subscript_stores:
+        for n in walk_local(f):
+            if isinstance(n, ast.Assign):
+                for t in n.targets:
+                    if isinstance(t, ast.Subscript) and isinstance(t.value, ast.Name):
+                        out.append((n, _origin_ids(cfg, t.value, n), n.value, n))
+    return out
+
+
+def _cone_with_growth(cfg, f, e, at, growers: list, *, resolve_call=None, depth: int = 0) -> list:
+    """Derivation cone of ``e`` in which a local container also derives from what the
+    ``growers`` put into it (a display / comprehension spelled as a loop that fills an
+    initially empty container).  The container is identified by its definitions
+    (reaching definitions shared between the name read and the name grown), not by name."""
+    nodes = cone(cfg, e, at, resolve_call=resolve_call, depth=depth)
+    seen_nodes = {id(n) for n in nodes}
+    used = set()
+    i = 0
+    while i < len(nodes):
+        n = nodes[i]
+        i += 1
+        if not (isinstance(n, ast.Name) and isinstance(getattr(n, "ctx", None), ast.Load) and enclosing_function(n) is f):
+            continue
+        at_n = cfg.stmt_of(n)
+        if at_n is None:
+            continue
+        ids = _origin_ids(cfg, n, at_n)
+        for g, rids, val, at_g in growers:
+            if id(g) in used or not (ids & rids):
+                continue
+            used.add(id(g))
+            for m in cone(cfg, val, at_g, resolve_call=resolve_call, depth=depth):
+                if id(m) not in seen_nodes:
+                    seen_nodes.add(id(m))
+                    nodes.append(m)
+    return nodes
+
+
+def _uses_whole_mapping(cfg, nodes, param: str) -> bool:
+    """Some node of the cone reads the mapping parameter ``param`` as a whole (iterates it,
+    passes it on, ``.items()``...) rather than picking one constant key out of it."""
+    for n in nodes:
+        if not (isinstance(n, ast.Name) and isinstance(getattr(n, "ctx", None), ast.Load)):
+            continue
+        at_n = cfg.stmt_of(n)
+        ss = sources(cfg, n, at_n) if at_n is not None else []
+        if not ss or not all(x.kind == "param" and x.expr.arg == param for x in ss):
+            continue
+        par = getattr(n, "_parent", None)
+        if isinstance(par, ast.Subscript) and par.value is n and isinstance(par.slice, ast.Constant):
+            continue
+        if isinstance(par, ast.Attribute) and par.value is n and par.attr in ("pop", "get", "setdefault", "__getitem__"):
+            call = getattr(par, "_parent", None)
+            if isinstance(call, ast.Call) and call.func is par and call.args and isinstance(call.args[0], ast.Constant):
+                continue
+        return True
+    return False
 
 
 def _origin_ids(cfg, name: ast.Name, at) -> set:
@@ -311,9 +400,43 @@ def _r27a_loader(chk) -> None:
         chk.fail("R27a", f, "no final nested_combine(...) merge found in load_config_up_to_path", detail="return value is the merge of all sources")
         return
 
+    # `stack.append(v)` / `stack.extend(vs)` on a local list: the list derives from v as well (a
+    # comprehension spelled as a loop).  append/extend keep the order of the loop; insert() is
+    # deliberately not recognised (such a stack has "no recognised provenance").
+    growers = _growers(cfg, f, ("append", "extend"), subscript_stores=False)
+
+    def full_cone(e, at) -> list:
+        return _cone_with_growth(cfg, f, e, at, growers, resolve_call=rc, depth=2)
+
+    def flat_args(args, at, depth=0) -> list:
+        """Positional arguments of the merge; `*xs` where xs is (only) a list/tuple display that
+        nothing grows or re-orders stands for the elements of that display, in order."""
+        out = []
+        for a in args:
+            if isinstance(a, ast.Starred) and depth < 4:
+                ss = single_sources(cfg, a.value, at)
+                if len(ss) == 1 and ss[0].kind == "expr" and not ss[0].path and isinstance(ss[0].expr, (ast.List, ast.Tuple)) and ss[0].expr.elts:
+                    disp = ss[0].expr
+                    touched = False
+                    for c in calls_in(f):
+                        if isinstance(c.func, ast.Attribute) and c.func.attr in MUT_METHODS and isinstance(c.func.value, ast.Name):
+                            at_c = cfg.stmt_of(c)
+                            if at_c is not None and id(disp) in _origin_ids(cfg, c.func.value, at_c):
+                                touched = True
+                    for n in walk_local(f):
+                        tg = n.targets if isinstance(n, ast.Assign) else [n.target] if isinstance(n, ast.AugAssign) else n.targets if isinstance(n, ast.Delete) else []
+                        for t in tg:
+                            if isinstance(t, ast.Subscript) and isinstance(t.value, ast.Name) and id(disp) in _origin_ids(cfg, t.value, n):
+                                touched = True
+                    if not touched:
+                        out += flat_args(disp.elts, ss[0].stmt, depth + 1)
+                        continue
+            out.append(a)
+        return out
+
     def classify(arg) -> Tuple[set, list]:
         e = arg.value if isinstance(arg, ast.Starred) else arg
-        nodes = cone(cfg, e, cfg.stmt_of(arg), resolve_call=rc, depth=2)
+        nodes = full_cone(e, cfg.stmt_of(arg))
         calls = cone_calls(nodes)
         classes = set()
         iters = [c for c in calls if _is_call_to(repo, c, HFILE, "iter_intermediate_paths")]
@@ -347,7 +470,7 @@ def _r27a_loader(chk) -> None:
         if any(k.arg is None for k in merge.keywords) or merge.keywords:
             chk.fail("R27a", merge, "final merge has keyword arguments; cannot establish order", detail="merge arguments positional")
         seq = []
-        for a in merge.args:
+        for a in flat_args(merge.args, cfg.stmt_of(merge)):
             classes, nodes = classify(a)
             seq.append((a, classes, nodes))
             # order-changing transforms between the walk and the merge
@@ -380,6 +503,55 @@ def _r27a_loader(chk) -> None:
                 )
         chk.sample({"rule": "R27a", "site": f"{LOADER}:{merge.lineno}", "order": [sorted(cl) for _, cl, _ in seq]})
     chk.floor("R27a.loader_merge_calls", 1)
+
+
+def _truthy_names(cfg, e: ast.AST, depth: int = 0) -> set:
+    """Locals known to be truthy when the branch condition atom ``e`` holds: ``e`` itself when it
+    is a name, and -- the test hoisted into a local (``flag = bool(x)`` / ``flag = x``; ``if
+    flag:``) -- the name tested there, provided it still holds the same value at the branch."""
+    if isinstance(e, ast.Call) and call_name(e) == "bool" and len(e.args) == 1 and not e.keywords:
+        return _truthy_names(cfg, e.args[0], depth + 1)
+    if not isinstance(e, ast.Name) or depth > 4:
+        return set()
+    out = {e.id}
+    at = cfg.stmt_of(e)
+    rd = cfg.reaching()
+    defs = list(rd.defs_at(at, e.id)) if at is not None else []
+    if len(defs) == 1 and defs[0].kind == "assign" and not defs[0].path:
+        d = defs[0]
+        for inner in _truthy_names(cfg, d.value, depth + 1):
+            probe = next((n for n in ast.walk(d.value) if isinstance(n, ast.Name) and n.id == inner), None)
+            if probe is None:
+                continue
+            same = {id(x.node) for x in rd.defs_at(d.stmt, inner)} == {id(x.node) for x in rd.defs_at(at, inner)}
+            if same:
+                out.add(inner)
+    return out
+
+
+def _choice_leaves(cfg, e: ast.AST, at, via=None, depth: int = 0) -> list:
+    """(name through which it was read or None, Src) for every value ``e`` may evaluate to."""
+    if depth > 10:
+        return []
+    if isinstance(e, ast.Name):
+        out = []
+        for s in sources(cfg, e, at):
+            if s.kind == "expr" and not s.path and isinstance(s.expr, (ast.BoolOp, ast.IfExp)):
+                out += _choice_leaves(cfg, s.expr, s.stmt, e, depth + 1)
+            else:
+                out.append((e, s))
+        return out
+    if isinstance(e, ast.BoolOp):
+        return [x for v in e.values for x in _choice_leaves(cfg, v, at, via, depth + 1)]
+    if isinstance(e, ast.IfExp):
+        return _choice_leaves(cfg, e.body, at, via, depth + 1) + _choice_leaves(cfg, e.orelse, at, via, depth + 1)
+    if isinstance(e, ast.Dict):
+        return [(via, Src(e, (), "expr", at, cfg))]  # a display written in place: a value of its own
+    out = []
+    for n in ast.walk(e):  # any other expression: every name it mentions (conservative)
+        if isinstance(n, ast.Name) and isinstance(n.ctx, ast.Load):
+            out += _choice_leaves(cfg, n, at, via, depth + 1)
+    return out
 
 
 def _base_name(e: ast.AST) -> Optional[ast.Name]:
@@ -432,7 +604,7 @@ def _r27a_iter(chk) -> None:
         loop = s
         while loop is not None and not isinstance(loop, (ast.While, ast.For)):
             loop = getattr(loop, "_parent", None)
-        srcs = sources(cfg, v, s)
+        srcs = _walk_leaves(cfg, y.value, s)
         outside = [x for x in srcs if x.stmt is not None and not _inside(x.stmt, loop)]
         inside = [x for x in srcs if x.stmt is not None and _inside(x.stmt, loop)]
         starts_common = any(
@@ -443,12 +615,46 @@ def _r27a_iter(chk) -> None:
         for x in inside:
             for n in cone(cfg, x.expr, x.stmt):
                 if isinstance(n, ast.BinOp) and isinstance(n.op, ast.Div):
-                    for m in ast.walk(n.right):
-                        if isinstance(m, ast.Subscript) and isinstance(m.value, ast.Attribute) and m.value.attr == "parts":
-                            idx = m.slice
-                            if isinstance(idx, ast.Constant) and idx.value == 0:
-                                ok_adv = True
+                    # the component appended: `<...>.parts[i]`, written in place or hoisted into locals;
+                    # every such pick feeding the division must be the first one (i == 0)
+                    picks = [m for m in cone(cfg, n.right, cfg.stmt_of(n)) if _is_parts_pick(cfg, m)]
+                    if picks and all(isinstance(m.slice, ast.Constant) and m.slice.value == 0 and not isinstance(m.slice.value, bool) for m in picks):
+                        ok_adv = True
         chk.require(ok_adv, "R27a", y, "the walk is not advanced by the first remaining component of inner_path (outer -> inner order is lost)", detail="walk advances by first remaining component")
+
+
+def _is_parts_pick(cfg, m: ast.AST) -> bool:
+    """``m`` is ``X[...]`` where X is ``<path>.parts``, directly or through plain locals."""
+    if not isinstance(m, ast.Subscript):
+        return False
+    at = cfg.stmt_of(m)
+    ss = single_sources(cfg, m.value, at)
+    return bool(ss) and all(s.kind == "expr" and not s.path and isinstance(s.expr, ast.Attribute) and s.expr.attr == "parts" for s in ss)
+
+
+def _walk_leaves(cfg, e: ast.AST, at, _seen=None) -> list:
+    """Definitions the *walked path* yielded as ``e`` may come from.  A method / attribute
+    chain on a local (``x.resolve()``, also when first stored in another local) is still that
+    local's path, so it is looked through; the advance (``x / part``) and the start value
+    (``Path(commonpath(..))``) are leaves.  Deliberately not transitive through the advance:
+    what matters is which definition reaches the yield *directly* (first iteration: the start)."""
+    _seen = _seen if _seen is not None else set()
+    base = _base_name(e)
+    if base is None:
+        return []
+    out = []
+    for s in sources(cfg, base, at):
+        if id(s.expr) in _seen:
+            continue
+        _seen.add(id(s.expr))
+        x = s.expr
+        if s.kind == "expr" and not s.path and isinstance(x, (ast.Attribute, ast.Call, ast.Subscript)):
+            b2 = _base_name(x)
+            if b2 is not None and any(z.kind in ("expr", "param", "for", "aug") for z in sources(cfg, b2, s.stmt)):
+                out += _walk_leaves(cfg, x, s.stmt, _seen)
+                continue
+        out.append(s)
+    return out
 
 
 def _inside(node: ast.AST, root: Optional[ast.AST]) -> bool:
@@ -509,21 +715,22 @@ def _r27a_fluffconfig(chk) -> None:
         # overrides wrapped under core
         if len(args) == 3:
             wrapped, raw_ok = False, True
-            names = [n for n in ast.walk(args[2]) if isinstance(n, ast.Name)]
-            for nm in names:
-                for s in sources(cfg, nm, st):
-                    if s.kind == "param" and s.expr.arg == "overrides":
-                        # the raw parameter may only reach the merge when it is falsy
-                        rewr = [
-                            a for a in walk_local(init)
-                            if isinstance(a, ast.Assign) and any(isinstance(t, ast.Name) and t.id == nm.id for t in a.targets)
-                            and any(pol and isinstance(e, ast.Name) and e.id == nm.id for e, pol in cfg.conditions(a))
-                        ]
-                        raw_ok = raw_ok and bool(rewr)
-                    elif s.kind == "expr" and isinstance(s.expr, ast.Dict):
-                        d = s.expr
-                        if len(d.keys) == 1 and isinstance(d.keys[0], ast.Constant) and d.keys[0].value == "core" and cone_has_param(cone(cfg, d.values[0], s.stmt), "overrides"):
-                            wrapped = True
+            # the values the third argument may be: names are read through their definitions,
+            # `a or b` / `a and b` / `x if c else y` through their operands (also when such an
+            # expression was first stored in a local)
+            for nm, s in _choice_leaves(cfg, args[2], st):
+                if s.kind == "param" and s.expr.arg == "overrides":
+                    # the raw parameter may only reach the merge when it is falsy
+                    rewr = [
+                        a for a in walk_local(init)
+                        if isinstance(a, ast.Assign) and any(isinstance(t, ast.Name) and t.id == nm.id for t in a.targets)
+                        and any(pol and nm.id in _truthy_names(cfg, e) for e, pol in cfg.conditions(a))
+                    ]
+                    raw_ok = raw_ok and bool(rewr)
+                elif s.kind == "expr" and isinstance(s.expr, ast.Dict):
+                    d = s.expr
+                    if len(d.keys) == 1 and isinstance(d.keys[0], ast.Constant) and d.keys[0].value == "core" and cone_has_param(cone(cfg, d.values[0], s.stmt), "overrides"):
+                        wrapped = True
             chk.require(wrapped and raw_ok, "R27a", call, "overrides are not wrapped under the 'core' section before the merge (they would not override [sqlfluff] values)", detail="overrides wrapped under core")
     for attr, param in (("_overrides", "overrides"), ("_extra_config_path", "extra_config_path"), ("_ignore_local_config", "ignore_local_config")):
         sts = stores.get(attr, [])
@@ -547,7 +754,7 @@ def _r27a_fluffconfig(chk) -> None:
             for pname, attr in (("overrides", "_overrides"), ("extra_config_path", "_extra_config_path"), ("ignore_local_config", "_ignore_local_config")):
                 a = b.get(pname)
                 chk.require(
-                    a is not None and is_self_attr(a, attr), "R27a", call,
+                    a is not None and _self_attr_value(mcfg, a, attr, s.stmt), "R27a", call,
                     f"child config does not inherit {pname} (make_child_from_path must pass {pname}=self.{attr})",
                     detail=f"child inherits {pname}",
                 )
@@ -599,7 +806,15 @@ def _r27a_fluffconfig(chk) -> None:
                 n_ok += 1
                 b = bind_args(call, from_root, bound=True)
                 a = b.get("overrides")
-                chk.require(a is not None and cone_has_param(cone(c, a, s.stmt), "kwargs"), "R27a", call, "CLI options are not passed as overrides", detail="cli: options are overrides")
+                # the options dict: a display / comprehension over kwargs, or an empty dict filled
+                # by `d[k] = v` / `d.update(..)` from kwargs
+                # (then what is filled in must range over kwargs as a whole, not be one picked option)
+                fill = _growers(c, gc, ("update",), subscript_stores=True)
+                from_cli = a is not None and (
+                    cone_has_param(cone(c, a, s.stmt), "kwargs")
+                    or _uses_whole_mapping(c, _cone_with_growth(c, gc, a, s.stmt, fill), "kwargs")
+                )
+                chk.require(from_cli, "R27a", call, "CLI options are not passed as overrides", detail="cli: options are overrides")
                 for p in ("extra_config_path", "ignore_local_config"):
                     a = b.get(p)
                     chk.require(a is not None and is_param_value(c, a, p, s.stmt), "R27a", call, f"CLI {p} is not passed on", detail=f"cli: passes {p}")
@@ -640,8 +855,14 @@ def _fresh(repo, names: _Names, cfg, s, depth: int = 2) -> Tuple[bool, str]:
             return False, f"parameter {e.arg!r}"
         return False, norm(e) if isinstance(e, ast.AST) else str(e)
     la = last_attr(e)
+    is_method_call = isinstance(e.func, ast.Attribute)
+    if isinstance(e.func, ast.Name):
+        # a bound method first stored in a local: `mk = cfg.make_child_from_path; mk(fname)`
+        al = sources(cfg, e.func, s.stmt) if s.stmt is not None else []
+        if al and all(x.kind == "expr" and not x.path and isinstance(x.expr, ast.Attribute) for x in al) and len({x.expr.attr for x in al}) == 1:
+            la, is_method_call = al[0].expr.attr, True
     if not s.path:
-        if isinstance(e.func, ast.Attribute) and la in FRESH_METHODS:
+        if is_method_call and la in FRESH_METHODS:
             return True, la
         r = _resolved(repo, e)
         if r and isinstance(r[1], ast.ClassDef) and _is_fluffconfig_class(repo, r[1]):
@@ -664,9 +885,19 @@ def _fresh(repo, names: _Names, cfg, s, depth: int = 2) -> Tuple[bool, str]:
             v, path = ret.value, tuple(s.path)
             while path and isinstance(v, (ast.Tuple, ast.List)) and isinstance(path[0], int) and path[0] < len(v.elts):
                 v, path = v.elts[path[0]], path[1:]
+            if path and isinstance(v, ast.Name):
+                # the tuple was first stored in a local: position <path> of what the local holds
+                inner = sources(fcfg, v, ret, path)
+                for s2 in inner:
+                    ok, why = _fresh(repo, names, fcfg, s2, depth - 1)
+                    if not ok:
+                        return False, f"{norm(e)} -> {why}"
+                if not inner:
+                    return False, norm(e)
+                continue
             if path:
                 return False, norm(e)
-            for s2 in single_sources(fcfg, v, ret):
+            for s2 in _indexed_sources(fcfg, v, ret):
                 ok, why = _fresh(repo, names, fcfg, s2, depth - 1)
                 if not ok:
                     return False, f"{norm(e)} -> {why}"
@@ -696,7 +927,7 @@ def _r27b(chk) -> None:
                 st = cfg.stmt_of(call)
                 construct = construct_of(call)
                 verdicts = []
-                for s in single_sources(cfg, recv, st):
+                for s in _indexed_sources(cfg, recv, st):
                     ok, why = _fresh(repo, names, cfg, s)
                     if not ok and s.kind == "param":
                         ok, why = _callers_pass_fresh(repo, names, f, s.expr.arg)
@@ -741,7 +972,7 @@ def _callers_pass_fresh(repo, names: _Names, f, param: str) -> Tuple[bool, str]:
                     return False, f"parameter {param!r} (caller {q} passes no value)"
                 n_call += 1
                 gcfg = cfg_of(g)
-                for s in single_sources(gcfg, a, gcfg.stmt_of(call)):
+                for s in _indexed_sources(gcfg, a, gcfg.stmt_of(call)):
                     ok, why = _fresh(repo, names, gcfg, s, depth=1)
                     if not ok:
                         return False, f"parameter {param!r} (caller {q} passes {why})"
@@ -1230,6 +1461,29 @@ _WALK_TAIL = (
     "    yield inner_path.resolve()\n"
 )
 
+_INIT_MID = (
+    "        if overrides:\n"
+    "            overrides = {\"core\": overrides}\n"
+    "            validate_config_dict(overrides, \"<provided overrides>\")\n"
+    "        # Stash overrides so we can pass them to child configs\n"
+    "        core_overrides = overrides[\"core\"] if overrides else None\n"
+    "        assert isinstance(core_overrides, dict) or core_overrides is None\n"
+    "        self._overrides = core_overrides\n"
+    "\n"
+    "        # Fetch a fresh plugin manager if we weren't provided with one\n"
+    "        self._plugin_manager = plugin_manager or get_plugin_manager()\n"
+    "\n"
+    "        defaults = nested_combine(*self._plugin_manager.hook.load_default_config())\n"
+    "        # If any existing configs are provided. Validate them:\n"
+    "        if configs:\n"
+    "            validate_config_dict(configs, \"<provided configs>\")\n"
+    "        empty_config: ConfigMappingType = {\"core\": {}}\n"
+    "        empty_overrides: ConfigMappingType = {}\n"
+    "        self._configs = nested_combine(\n"
+    "            defaults, configs or empty_config, overrides or empty_overrides\n"
+    "        )\n"
+)
+
 VARIANTS = [
     # behaviour-preserving refactors: must stay quiet
     Variant(
@@ -1354,10 +1608,29 @@ VARIANTS = [
         "QUIET", None, "R27a __init__: the three merge layers and the merge result go through locals",
     ),
     Variant(
-        "quiet-init-core-overrides-before-wrap", FLUFF,
-        "        if overrides:\n            overrides = {\"core\": overrides}\n            validate_config_dict(overrides, \"<provided overrides>\")\n        # Stash overrides so we can pass them to child configs\n        core_overrides = overrides[\"core\"] if overrides else None\n",
-        "        core_overrides = None\n        if overrides:\n            core_overrides = overrides\n            overrides = {\"core\": core_overrides}\n            validate_config_dict(overrides, \"<provided overrides>\")\n        # Stash overrides so we can pass them to child configs\n",
-        "QUIET", None, "R27a __init__: the core overrides are remembered before wrapping instead of being read back out of the wrapper (same object)",
+        "quiet-init-wrapped-overrides-own-local", FLUFF,
+        _INIT_MID,
+        "        wrapped_overrides: ConfigMappingType = {}\n"
+        "        if overrides:\n"
+        "            wrapped_overrides = {\"core\": overrides}\n"
+        "            validate_config_dict(wrapped_overrides, \"<provided overrides>\")\n"
+        "        # Stash overrides so we can pass them to child configs\n"
+        "        core_overrides = wrapped_overrides[\"core\"] if wrapped_overrides else None\n"
+        "        assert isinstance(core_overrides, dict) or core_overrides is None\n"
+        "        self._overrides = core_overrides\n"
+        "\n"
+        "        # Fetch a fresh plugin manager if we weren't provided with one\n"
+        "        self._plugin_manager = plugin_manager or get_plugin_manager()\n"
+        "\n"
+        "        defaults = nested_combine(*self._plugin_manager.hook.load_default_config())\n"
+        "        # If any existing configs are provided. Validate them:\n"
+        "        if configs:\n"
+        "            validate_config_dict(configs, \"<provided configs>\")\n"
+        "        empty_config: ConfigMappingType = {\"core\": {}}\n"
+        "        self._configs = nested_combine(\n"
+        "            defaults, configs or empty_config, wrapped_overrides\n"
+        "        )\n",
+        "QUIET", None, "R27a __init__: the wrapped overrides live in their own local (initialised empty) instead of re-binding the parameter; `x or {}` is then not needed",
     ),
     Variant(
         "quiet-child-inherits-through-locals-positional", FLUFF,
@@ -1394,6 +1667,54 @@ VARIANTS = [
         "        config = (config or self.config).copy()\n",
         "        if config:\n            local_config = config.copy()\n        else:\n            local_config = self.config.copy()\n        config = local_config\n",
         "QUIET", None, "R27b parse_string: `(a or b).copy()` spelled as if/else with a copy on each arm",
+    ),
+    Variant(
+        "quiet-load-raw-returns-tuple-through-local", LINTER,
+        "        return raw_file, file_config, encoding\n",
+        "        loaded = (raw_file, file_config, encoding)\n        return loaded\n",
+        "QUIET", None, "R27b: the callee (load_raw_file_and_config) builds its result tuple in a local before returning it; the render command's receiver is still position 1 of it",
+    ),
+    Variant(
+        "quiet-get-config-overrides-loop", CLI,
+        "    overrides = {k: kwargs[k] for k in kwargs if kwargs[k] is not None}\n",
+        "    overrides = {}\n    for option, value in kwargs.items():\n        if value is not None:\n            overrides[option] = value\n",
+        "QUIET", None, "R27a cli get_config: the dict comprehension over the options spelled as a loop filling an empty dict",
+    ),
+    Variant(
+        "quiet-loader-appdir-helper-inlined", LOADER,
+        "        user_appdir_config = _load_user_appdir_config()\n",
+        "        appdir = _get_user_config_dir_path(sys.platform)\n        user_appdir_config = load_config_at_path(appdir) if os.path.exists(appdir) else {}\n",
+        "QUIET", None, "R27a loader: the app-dir helper inlined as a conditional expression",
+    ),
+    Variant(
+        "quiet-discovery-core-section-by-subscript", DISC,
+        "    ignore_section = config_dict.get(\"core\", {})\n    if not isinstance(ignore_section, dict):\n        return None  # pragma: no cover\n    patterns = ignore_section.get(\"ignore_paths\", [])\n",
+        "    ignore_section = config_dict[\"core\"] if \"core\" in config_dict else {}\n    if not isinstance(ignore_section, dict):\n        return None  # pragma: no cover\n    patterns = []\n    if \"ignore_paths\" in ignore_section:\n        patterns = ignore_section[\"ignore_paths\"]\n",
+        "QUIET", None, "R27c: read-only access to the cached dict by membership test + subscript instead of .get()",
+    ),
+    Variant(
+        "quiet-merge-get-isinstance", HDICT,
+        "            if k in r and isinstance(r[k], dict):\n",
+        "            existing = r.get(k)\n            if isinstance(existing, dict):\n",
+        "QUIET", None, "R27e/R27c nested_combine: `k in r and isinstance(r[k], dict)` as isinstance(r.get(k), dict) through a local",
+    ),
+    Variant(
+        "quiet-walk-while-true-break", HFILE,
+        "        while path_to_visit != inner_path:\n            yield path_to_visit.resolve()\n",
+        "        while True:\n            if path_to_visit == inner_path:\n                break\n            yield path_to_visit.resolve()\n",
+        "QUIET", None, "R27a walk: loop condition moved into the body as an early break",
+    ),
+    Variant(
+        "quiet-init-overrides-test-hoisted", FLUFF,
+        "        if overrides:\n            overrides = {\"core\": overrides}\n",
+        "        has_overrides = bool(overrides)\n        if has_overrides:\n            overrides = {\"core\": overrides}\n",
+        "QUIET", None, "R27a __init__: the `if overrides:` test hoisted into a boolean local",
+    ),
+    Variant(
+        "quiet-file-config-bound-method-alias", LINTER,
+        "        file_config = root_config.make_child_from_path(fname)\n",
+        "        make_child = root_config.make_child_from_path\n        file_config = make_child(fname)\n",
+        "QUIET", None, "R27b load_raw_file_and_config: the creating method called through a bound-method local",
     ),
     # breaking edits
     Variant(
@@ -1560,5 +1881,72 @@ VARIANTS = [
         "    r: NestedStringDict[T] = {}\n    for d in dicts:\n",
         "    if len(dicts) == 1:\n        return dicts[0]\n    r: NestedStringDict[T] = {}\n    for d in dicts:\n",
         "R27c", "nested_combine",
+    ),
+    # ---- breaking edits written in the refactored spellings the rules now accept ----
+    Variant(
+        "stack-loop-inserts-at-front", LOADER,
+        "        config_stack = [load_config_at_path(str(p.resolve())) for p in config_paths]\n",
+        "        for config_dir in config_paths:\n            config_stack.insert(0, load_config_at_path(str(config_dir.resolve())))\n",
+        "R27a", "load_config_up_to_path", "loop form, but each nearer directory is put *before* the farther ones",
+    ),
+    Variant(
+        "layers-list-extra-inserted-first", LOADER,
+        "    return nested_combine(\n        user_appdir_config,\n        user_config,\n        *parent_config_stack,\n        *config_stack,\n        extra_config,\n    )",
+        "    layers = [\n        user_appdir_config,\n        user_config,\n        *parent_config_stack,\n        *config_stack,\n    ]\n    layers.insert(0, extra_config)\n    return nested_combine(*layers)",
+        "R27a", "load_config_up_to_path", "list-then-star form, but the list is changed after the display",
+    ),
+    Variant(
+        "walk-hoisted-component-is-last", HFILE,
+        "            next_path_to_visit = (\n                path_to_visit / inner_path.relative_to(path_to_visit).parts[0]\n            )\n",
+        "            remaining_parts = inner_path.relative_to(path_to_visit).parts\n            first_component = remaining_parts[-1]\n            next_path_to_visit = path_to_visit / first_component\n",
+        "R27a", "iter_intermediate_paths",
+    ),
+    Variant(
+        "render-indexed-wrong-tuple-position", CLI,
+        "                raw_sql, file_config, _ = lnt.load_raw_file_and_config(path, lnt.config)\n",
+        "                loaded = lnt.load_raw_file_and_config(path, lnt.config)\n                raw_sql = loaded[0]\n                file_config = loaded[2]\n",
+        "R27b", "::render", "indexed form: position 2 of the loaded tuple is not the per-file config",
+    ),
+    Variant(
+        "cli-options-dropped-one-key-kept", CLI,
+        "    overrides = {k: kwargs[k] for k in kwargs if kwargs[k] is not None}\n",
+        "    overrides = {}\n",
+        "R27a", "get_config", "only library_path (one picked option) still reaches the overrides",
+    ),
+    Variant(
+        "cli-overrides-not-passed", CLI,
+        "            overrides=overrides,\n            require_dialect=kwargs.pop(\"require_dialect\", True),\n",
+        "            require_dialect=kwargs.pop(\"require_dialect\", True),\n",
+        "R27a", "get_config",
+    ),
+    Variant(
+        "merge-leaf-local-sometimes-shared", HDICT,
+        "                r[k] = deepcopy(d[k])\n",
+        "                leaf_copy = deepcopy(d[k])\n                if isinstance(leaf_copy, str):\n                    leaf_copy = d[k]\n                r[k] = leaf_copy\n",
+        "R27c", "nested_combine", "through-a-local form: one definition of the stored local is not a copy",
+    ),
+    Variant(
+        "copy-alias-one-origin-unstored", FLUFF,
+        "        config_copy._configs = configs_attribute_copy\n        return config_copy\n",
+        "        isolated = config_copy\n        if memo:\n            isolated = copy(self)\n        config_copy._configs = configs_attribute_copy\n        return isolated\n",
+        "R27d", "copy", "alias form: one object copy() may return keeps the shared _configs",
+    ),
+    Variant(
+        "child-inherits-wrong-attribute-through-local", FLUFF,
+        "        return self.from_path(\n            path,\n            extra_config_path=self._extra_config_path,\n            ignore_local_config=self._ignore_local_config,\n            overrides=self._overrides,\n",
+        "        inherited_overrides = self._configs\n        inherited_extra = self._extra_config_path\n        return self.from_path(\n            path,\n            inherited_extra,\n            self._ignore_local_config,\n            overrides=inherited_overrides,\n",
+        "R27a", "FluffConfig.make_child_from_path", "through-a-local form: the local holds the whole config dict instead of the stored overrides",
+    ),
+    Variant(
+        "init-hoisted-test-is-stale", FLUFF,
+        "        if overrides:\n            overrides = {\"core\": overrides}\n",
+        "        has_overrides = bool(overrides)\n        overrides = overrides or configs\n        if has_overrides:\n            overrides = {\"core\": overrides}\n",
+        "R27a", "FluffConfig.__init__", "hoisted-test form: the tested name is re-bound between the test and the branch, raw file configs can reach the merge as overrides",
+    ),
+    Variant(
+        "file-config-alias-of-non-creating-method", LINTER,
+        "        file_config = root_config.make_child_from_path(fname)\n",
+        "        make_child = root_config.get_section\n        file_config = make_child(fname)\n",
+        "R27b", "load_raw_file_and_config", "bound-method-alias form: the aliased method does not create a config",
     ),
 ]
